@@ -144,6 +144,17 @@ def ITE(c, a, b):
     return Sym(z3.If(_b(c), ea, eb))
 
 
+def CLOSE(a, b, scale=None, abs_tol=0.0):
+    """Approximate equality usable inside boolean oracles (1e-9 relative symbolically, 1e-7 on floats)."""
+    if scale is None:
+        scale = abs(a) + abs(b)
+    if not (is_sym(a) or is_sym(b) or is_sym(scale)):
+        return abs(a - b) <= REPLAY_TOL * abs(scale) + abs_tol
+    d = a - b
+    t = REL_TOL * scale + abs_tol
+    return AND(d <= t, -d <= t)
+
+
 def ABS(x):
     return abs(x)
 
